@@ -26,7 +26,7 @@ ASSUMPTIONS = [
 
 
 QUICK_BUDGET = {"cases": 480, "deadline_s": 170, "case_timeout_s": 90, "floors": {"status_rows": 758, "filtered_views": 502, "previews_snapshotted": 840, "run_compared": 168, "ghost_ids_tracked": 50}}
-THOROUGH_FACTOR = 18  # thorough = the same workload with 18x the cases (floors scale along)
+THOROUGH_FACTOR = 15  # thorough = the same workload with 15x the cases (floors scale along)
 
 
 def budget(tier):
